@@ -317,3 +317,48 @@ Proof.
     + eapply Rle_trans; [|exact Hx1]. apply Rmin_glb; lra.
     + eapply Rle_trans; [exact Hx2|]. apply Rmax_lub; lra.
 Qed.
+
+(* ------------------------------------------------------------------ *)
+(* the readers establish the bulk density hypothesis for class input   *)
+
+Definition bd_admissible (v : R) : Prop := 567 / 1000 <= v <= 23 / 10.
+
+Lemma class_density_lemma : forall c : Z, (1 <= c <= 5)%Z ->
+  exists v : R, bd_of_class c = Some v /\ bd_admissible v.
+Proof.
+  intros c Hc. assert (H : c = 1%Z \/ c = 2%Z \/ c = 3%Z \/ c = 4%Z \/ c = 5%Z) by lia.
+  destruct H as [-> | [-> | [-> | [-> | ->]]]]; cbn [bd_of_class Z.eqb Pos.eqb]; eexists; (split; [reflexivity|]);
+    unfold bd_admissible; decs; lra.
+Qed.
+
+Lemma class_density_none_lemma : forall c : Z, (c < 1 \/ 5 < c)%Z -> @bd_of_class R RNum c = None.
+Proof.
+  intros c Hc. unfold bd_of_class.
+  repeat match goal with |- context [Z.eqb c ?k] => destruct (Z.eqb_spec c k); [lia|] end. reflexivity.
+Qed.
+
+(* a horizon of the soil file: class 1..5 without a measured value, or a measured value in the range *)
+Definition horizon_admissible (h : Z * Z * option R) : Prop :=
+  let '(_, c, m) := h in
+  match m with Some v => bd_admissible v | None => (1 <= c <= 5)%Z end.
+
+Lemma layer_bd_admissible_lemma : forall (hs : list (Z * Z * option R)) (prev : Z),
+  Forall horizon_admissible hs -> Forall bd_admissible (layer_bd prev hs).
+Proof.
+  induction hs as [|[[ukt c] m] r IH]; intros prev H; cbn [layer_bd]; [constructor|].
+  inversion H as [|? ? Hh Hr]; subst. apply Forall_app; split; [|apply IH; assumption].
+  apply Forall_forall. intros x Hx. apply repeat_spec in Hx. subst x.
+  cbn in Hh. unfold horizon_bulk. destruct m as [v|]; [exact Hh|].
+  destruct (class_density_lemma c Hh) as (v & -> & Hv). exact Hv.
+Qed.
+
+(* the stone content does not enter: BD is a function of the horizons' (depth, class, measured) only — by
+   construction of [layer_bd]; every layer's density is one of the soil file's horizon densities *)
+Lemma layer_bd_from_file_lemma : forall (hs : list (Z * Z * option R)) (prev : Z) (x : R),
+  In x (layer_bd prev hs) -> exists h, In h hs /\ x = horizon_bulk (snd (fst h)) (snd h).
+Proof.
+  induction hs as [|[[ukt c] m] r IH]; intros prev x Hx; cbn [layer_bd] in Hx; [destruct Hx|].
+  apply in_app_or in Hx. destruct Hx as [Hx | Hx].
+  - apply repeat_spec in Hx. exists (ukt, c, m). split; [left; reflexivity | exact Hx].
+  - destruct (IH _ _ Hx) as (h & Hin & E). exists h. split; [right; exact Hin | exact E].
+Qed.
